@@ -83,6 +83,7 @@ static cocls::async<void> co_party_rounds(World &w, std::string p, std::string r
         if (foreign) hand_to_helper(w, p, own);
         else if (rel == "discard") own.release();
         else if (rel == "await") co_await own.release();
+        else if (rel == "assign") own = cocls::mutex::ownership();  // released by move-assigning over the holding object
         else { cocls::mutex::ownership last(std::move(own)); }     // "dtor": released by the destructor of `last`
     }
 }
@@ -92,6 +93,7 @@ static cocls::async<void> co_party(World &w, std::string p, std::string rel) {
     body(w, p);
     if (rel == "discard") own.release();
     else if (rel == "await") co_await own.release();
+    else if (rel == "assign") own = cocls::mutex::ownership();   // released by move-assigning over the holding object
     // "dtor": released by the destructor of `own`
 }
 
@@ -279,12 +281,14 @@ static void run_one(const Scenario &sc, Reporter &rep, Explore *ex) {
                 cocls::mutex::ownership own(w.mx.lock());
                 body(w, p);
                 if (rel == "discard") own.release();
+                else if (rel == "assign") own = cocls::mutex::ownership();
             } else if (kind == "try" && !multi) {
                 cocls::mutex::ownership own = w.mx.try_lock();
                 if (own) {
                     w.tryres[p] = "true";
                     body(w, p);
                     if (rel == "discard") own.release();
+                    else if (rel == "assign") own = cocls::mutex::ownership();
                 } else {
                     w.tryres[p] = "false";
                     w.done[p] = true;
@@ -298,6 +302,7 @@ static void run_one(const Scenario &sc, Reporter &rep, Explore *ex) {
                     body(w, p);
                     if (foreign) hand_to_helper(w, p, own);
                     else if (rel == "discard") own.release();
+                    else if (rel == "assign") own = cocls::mutex::ownership();
                     else { cocls::mutex::ownership last(std::move(own)); }
                 }
             } else if (kind == "try") {
@@ -308,6 +313,7 @@ static void run_one(const Scenario &sc, Reporter &rep, Explore *ex) {
                         { alloc_pause np; w.tryres[p] = "true"; }
                         body(w, p);
                         if (rel == "discard") own.release();
+                        else if (rel == "assign") own = cocls::mutex::ownership();
                         else { cocls::mutex::ownership last(std::move(own)); }
                     } else {
                         alloc_pause np;
@@ -333,6 +339,7 @@ static void run_one(const Scenario &sc, Reporter &rep, Explore *ex) {
                 cocls::mutex::ownership o(std::move(w.slot[p]));
                 { alloc_pause np; w.slotfull[p] = false; }
                 if (rel == "discard") o.release();
+                else if (rel == "assign") o = cocls::mutex::ownership();
                 // otherwise released by the destructor of `o`
             }
             w.allocs += alloc_stats::news - n0;
